@@ -450,6 +450,10 @@ PROPS["C11"]["claim"] += (" FILE LEVEL (top_down_at_file_level, binding_evaluate
 PROPS["C14"]["claim"] += (" STATEMENT LEVEL (duplicate_output_statement_is_rejected): once a build statement's paths are evaluated and interned, an output "
     "that an earlier statement (of any file of the manifest tree: the graph is shared) already produces makes Loader::add_build fail whatever else the "
     "statement says; with C10's file-level theorem the whole load fails.")
+PROPS["C06"]["claim"] += (" CYCLE DIAGNOSIS IS COMPLETE (cycle_among_requested_steps_is_diagnosed; Lemmas/SchedAcyclic): want_build marks a build only after its "
+    "ordering inputs have been walked, so whenever want_file succeeds from an unmarked state no build the target needs is its own ordering ancestor - a "
+    "dependency cycle among requested steps therefore always ends in the `dependency cycle` error (it cannot run out of fuel), a cycle closed only by a "
+    "validation edge is accepted.")
 PROPS["C09"]["claim"] += (" ACROSS INVOCATIONS, FOR EVERY LOG (Lemmas/WorkDisc): start-up (applyLog, records WITH dependency lists) only interns source "
     "files and attaches to each step exactly the dependency list and signature of the LATEST record attributed to it "
     "(remembered_by_every_later_invocation, nothing_remembered_without_record); a success's record is the latest until the next one "
